@@ -91,7 +91,8 @@ mod sidecar;
 
 /// Verification hook (cargo feature `verif`): a thread-local virtual
 /// millisecond clock for generation ids, commit timestamps and the garbage
-/// collector's sweep floor. Absent unless a thread installs it.
+/// collector's sweep floor, and a seeded replacement for the random nonces
+/// and generation salts. Absent unless a thread installs it.
 #[cfg(feature = "verif")]
 pub mod verif {
     use std::cell::Cell;
@@ -111,6 +112,36 @@ pub mod verif {
             let v = c.get()?;
             c.set(Some(v + 1));
             Some(v)
+        })
+    }
+
+    thread_local! {
+        static RAND: Cell<Option<u64>> = const { Cell::new(None) };
+    }
+
+    /// Installs (or removes) a seeded byte stream that replaces the OS-seeded
+    /// generator for nonces and generation salts on this thread, so that a
+    /// generated case replays bit for bit.
+    pub fn set_rand_seed(seed: Option<u64>) {
+        RAND.with(|c| c.set(seed));
+    }
+
+    /// Fills `out` from the seeded stream (splitmix64); false if none is installed.
+    pub fn rand_fill(out: &mut [u8]) -> bool {
+        RAND.with(|c| {
+            let Some(mut s) = c.get() else {
+                return false;
+            };
+            for chunk in out.chunks_mut(8) {
+                s = s.wrapping_add(0x9E37_79B9_7F4A_7C15);
+                let mut z = s;
+                z = (z ^ (z >> 30)).wrapping_mul(0xBF58_476D_1CE4_E5B9);
+                z = (z ^ (z >> 27)).wrapping_mul(0x94D0_49BB_1331_11EB);
+                z ^= z >> 31;
+                chunk.copy_from_slice(&z.to_le_bytes()[..chunk.len()]);
+            }
+            c.set(Some(s));
+            true
         })
     }
 }
